@@ -112,8 +112,15 @@ class Ctx:
             raise HarnessError("cannot build /repo with -tags verif:\n" + out + err)
         if worker:
             wdir = os.path.join(VERIF, "worker")
-            rc, out, err = sh(["go", "build", "-tags", "verif", "-o", self.bins + "/vworker", "."],
-                              cwd=wdir, timeout=900, env_=env(GOFLAGS="-mod=mod"))
+            args = ["go", "build", "-tags", "verif", "-o", self.bins + "/vworker"]
+            if os.path.realpath(REPO) != "/repo":
+                # trial runs against a scratch copy of the repository: same worker sources, other replace target
+                mf = os.path.join(self.scratch, "worker.mod")
+                txt = open(os.path.join(wdir, "go.mod")).read().replace("=> /repo", "=> " + os.path.realpath(REPO))
+                open(mf, "w").write(txt)
+                shutil.copy(os.path.join(REPO, "go.sum"), os.path.join(self.scratch, "worker.sum"))
+                args.append("-modfile=" + mf)
+            rc, out, err = sh(args + ["."], cwd=wdir, timeout=900, env_=env(GOFLAGS="-mod=mod"))
             if rc != 0:
                 raise HarnessError("cannot build the worker against /repo:\n" + out + err)
         self.extra["build_s"] = round(time.time() - t, 1)
